@@ -249,6 +249,7 @@ class Engine:
         self.loops = loops          # "fail": a back edge raises NotTabulable; "havoc": generic-iteration abstraction
         self.skip_tracing = True
         self.trace_calls = set()    # opaque callees whose calls are recorded (in order) in the path trace
+        self.stop_terms = set()     # blocks of the top-level function whose terminator ends a region() exploration
         self.mod_summaries = {}     # opaque callee -> (index of the &mut argument, pointee ADT, fields it may modify)
         self.opaque = set(opaque)
         self.inline_depth = inline_depth
@@ -743,6 +744,11 @@ class Engine:
                         self.write_loc(st, self.loc_of_place(st, fr, p), v)
                 elif s["k"] == "setdiscr":
                     pass
+            if depth == 0 and bi in self.stop_terms and bi != start:
+                # stop in front of this block's terminator (e.g. the call that hands the remaining work to a helper)
+                st.stack = entry_stack
+                out.append((st, ("stop", bi)))
+                continue
             t = blk["t"]
             k = t["k"]
             if k == "goto":
@@ -764,7 +770,11 @@ class Engine:
                     if unwrapish:
                         st2.trace.append(("site", (key, bi), "fail" if res[0] == "panic" else ("unknown" if res[0] in ("unwrap", "unwrap_unchecked", "app") else "safe")))
                     if res[0] == "loopback":
-                        continue      # a generic iteration of a callee's loop: not a return
+                        # a generic iteration of a loop inside an inlined callee: not a return of this function; surfaced as a leaf of its own
+                        # (depth > 0, callee recorded) so that rules see the loop of a helper extracted from the function they read
+                        st2.stack = entry_stack
+                        out.append((st2, res if len(res) > 3 else res + (t["f"].get("fn", "?"),)))
+                        continue
                     if res[0] == "panic":
                         st2.stack = entry_stack
                         out.append((st2, res))
